@@ -338,6 +338,48 @@ class Context(Harness):
         yield 'notes-independent-of-context', obs['mine'] == exp
 
 
+class CrossCategory(Harness):
+    """the same name advertised in several categories of one KEXINIT: each category's JSON notes equal that category's text findings
+    (ratings are per category: a cipher name listed as a MAC is unknown there)."""
+    prop, ob = PROP, 'O7'
+    width = 64
+    NAMES = ['chacha20-poly1305@openssh.com', 'none', 'aes256-gcm@openssh.com', 'hmac-sha2-256', 'ssh-ed25519', 'curve25519-sha256']
+
+    def __init__(self, ni):
+        self.ni = ni
+        self.name = 'crosscategory-%d' % ni
+
+    def params(self):
+        return {'ni': self.ni}
+
+    def inputs(self):
+        return {'tok': zx.fresh_str('tok', 2, OL.NAMECH)}
+
+    def run(self, M, inp):
+        n = self.NAMES[self.ni]
+        L = {'kex': [inp['tok'], n], 'key': [n, inp['tok']], 'enc': [n, inp['tok']], 'mac': [inp['tok'], n]}
+        t = OL.run_output(M, L)
+        j = OL.run_output(M, L, json=True)
+        if isinstance(t['ret'], Exc) or isinstance(j['ret'], Exc):
+            return {'exc': t['ret'] if isinstance(t['ret'], Exc) else j['ret']}
+        parsed = OL.parse_alg_lines(t['lines'])
+        text = {c: [(h, l, x) for cc, h, l, x in parsed if cc == c and l in ('fail', 'warn')] for c in OL.CATS}
+        js = {c: [(e['algorithm'], lv, x) for e in j['doc'][c] for lv in ('fail', 'warn') for x in e['notes'].get(lv, [])] for c in OL.CATS}
+        return {'text': text, 'json': js}
+
+    def check(self, inp, obs):
+        if 'exc' in obs:
+            yield 'no-exception', False
+            return
+        for c in OL.CATS:
+            t, j = obs['text'][c], obs['json'][c]
+            # unknown names: text says [warn] unknown algorithm, JSON says fail: using unknown algorithm - normalise both to 'unknown'
+            norm = lambda lst: [(h, 'unknown', '') if (isinstance(x, str) and x in ('unknown algorithm', 'using unknown algorithm')) else (h, l, x) for h, l, x in lst]
+            t, j = norm(t), norm(j)
+            ok = len(t) == len(j) and all(bool(a[0] == b[0]) and a[1] == b[1] and bool(a[2] == b[2]) for a, b in zip(t, j))
+            yield 'json==text-in-' + c, ok
+
+
 def tasks(tier):
     q = tier == 'quick'
     T = []
@@ -359,6 +401,8 @@ def tasks(tier):
     for base in Gss.BASES:
         for n in ((1, 2) if q else (1, 2, 3)):
             T.append(Gss(base, n))
+    for ni in range(len(CrossCategory.NAMES)):
+        T.append(CrossCategory(ni))
     for cat in OL.CATS:
         for n, pos in ([(2, 0), (2, 1)] if q else [(2, 0), (2, 1), (3, 0), (3, 1), (3, 2)]):
             for client in (False, True):
@@ -379,6 +423,8 @@ def harness_by_name(name, params):
         return Unknown(p['cat'], p['n'], p['pre'], p['suf'])
     if k == 'gss':
         return Gss(p['base'], p['n'])
+    if k == 'crosscategory':
+        return CrossCategory(p['ni'])
     if k == 'context':
         return Context(p['cat'], p['pos'], p['n'], p['client'])
     raise KeyError(name)
